@@ -113,6 +113,9 @@ def build(tier, seed):
     obs.append(vprop.enum_ob("C09.sparse.enum", [ST + ":get_sparse_operator", ST + ":_kronecker_operators"], lambda: range(1, nmax + 1), _check_sparse,
                              "bounded-exhaustive per width: get_sparse_operator of every one of the 4^n Pauli strings (complex coefficient, identity padding to n..n+2) equals the Kronecker "
                              "definition with qubit 0 leftmost; unsimplified sums with repeated strings, constants, the zero operator; too small n raises", timeout=900))
+    obs.append(vprop.enum_ob("C09.sparse.wide.enum", [ST + ":get_sparse_operator", ST + ":_kronecker_operators"], lambda: ([5, 8, 11] if tier == "quick" else [5, 8, 11, 13, 14]), _check_sparse_wide,
+                             "bounded: wide registers (5..11 qubits, thorough 14): terms with factors on the first / last / middle / adjacent qubits, identity padding, unsimplified sums "
+                             "equal the explicit Kronecker chain", exhaustive=False, timeout=900))
     obs.append(vprop.enum_ob("C09.expand.enum", [UT + ":get_pauliop_from_matrix"], lambda: range(1, 3 if tier == "quick" else 4), _check_expand,
                              "bounded, complete by real-linearity for each n: Pauli expansion of every real and imaginary matrix unit of size 2^n converted back reproduces it", timeout=900))
     obs.append(vprop.enum_ob("C09.misc.enum", [UT + ":get_expectation_value", OU + ":is_hermitian", ST + ":expectation"], lambda: range(3), _check_misc,
@@ -167,6 +170,40 @@ def _check_sparse(n):
     Z = get_sparse_operator(PauliSum(), n)
     if Z.shape != (2 ** n, 2 ** n) or Z.nnz != 0:
         return False, "zero operator"
+    return True, "ok"
+
+
+def _check_sparse_wide(n):
+    """wide registers: terms with a few non-identity factors anywhere in an n-qubit register (first, last, adjacent, far apart), complex coefficients, identity
+    padding above the operator's own width, sums; reference = explicit Kronecker chain built here with scipy.sparse.kron (qubit 0 leftmost)"""
+    import numpy as np
+    import scipy.sparse as sp
+    from orquestra.quantum.operators import PauliSum, PauliTerm, get_sparse_operator
+    P = {"I": sp.identity(2, format="csc", dtype=complex), "X": sp.csc_matrix([[0, 1], [1, 0]], dtype=complex), "Y": sp.csc_matrix([[0, -1j], [1j, 0]], dtype=complex),
+         "Z": sp.csc_matrix([[1, 0], [0, -1]], dtype=complex)}
+
+    def chain(ops, total):
+        out = sp.identity(1, format="csc", dtype=complex)
+        for q in range(total):
+            out = sp.kron(out, P[ops.get(q, "I")], format="csc")
+        return out
+    strings = [{0: "X"}, {n - 1: "Y"}, {0: "Z", n - 1: "X"}, {1: "Y", 2: "Y"}, {n // 2: "Z"}, {0: "X", n // 2: "Y", n - 1: "Z"}, {n - 2: "X", n - 1: "Y"}, {}]
+    for i, ops in enumerate(strings):
+        c = (0.5 - 0.25j) * (i + 1)
+        t = PauliTerm(dict(ops) or "I0", c)
+        for total in sorted({max(t.n_qubits, 1), n, n + 1}):
+            if total < t.n_qubits:
+                continue
+            M = get_sparse_operator(t, total)
+            W = c * chain(ops, total)
+            if M.shape != W.shape or abs(M - W).max() > 1e-12:
+                return False, f"{t} on {total} qubits differs from the Kronecker chain (max deviation {abs(M - W).max() if M.shape == W.shape else 'shape ' + str(M.shape)})"
+    s_ = PauliSum([PauliTerm({0: "X", n - 1: "Z"}, 0.5), PauliTerm({n - 1: "Y"}, 1j), PauliTerm({0: "X", n - 1: "Z"}, 0.25), PauliTerm("I0", -2.0)])
+    W = 0.75 * chain({0: "X", n - 1: "Z"}, n) + 1j * chain({n - 1: "Y"}, n) - 2.0 * chain({}, n)
+    if abs(get_sparse_operator(s_, n) - W).max() > 1e-12:
+        return False, f"unsimplified sum on {n} qubits differs from the sum of the Kronecker chains"
+    if get_sparse_operator(s_).shape != (2 ** n, 2 ** n):
+        return False, "default width is not the operator's own width"
     return True, "ok"
 
 
